@@ -141,3 +141,20 @@ def fl(x):
     if x != x:
         return "nan"
     return x
+
+
+def concretiser(m):
+    """x -> float: value of a Sym / number under model m with the true functions in place of the UFs
+    (inputs created as exp(u) are concretised as math.exp(model(u)), not as the model's own 'exp')."""
+    from .core import Sym, is_nan
+    env = DefaultEnv(env_from_model(m))
+    cache = {}
+
+    def val(x):
+        if x is None:
+            return None
+        if is_nan(x):
+            return "nan"
+        return fl(numeval(Sym.lift(x), env, cache=cache))
+    val.env = env
+    return val
